@@ -15,6 +15,8 @@ RULE = ("seeded lists of 0..5000 entries with duplicates, host:port forms, empty
 
 
 def model_case(case, impl):
+    if case.startswith("c18.reconnect"):
+        return case
     if impl.count(";") < 2:
         return None
     idx, bit, _ = impl.split(";", 2)
@@ -23,6 +25,8 @@ def model_case(case, impl):
 
 
 def impl_view(case, impl):
+    if case.startswith("c18.reconnect"):
+        return impl
     return impl.split(";", 2)[2] if impl.count(";") >= 2 else impl
 
 
@@ -39,7 +43,7 @@ FHOSTS = [b"web01", b"web010", b"web01:2222", b"prod-web01", b"prod-web01.exampl
 HOSTS = [b"a", b"b", b"srv1", b"srv1:2222", b"srv2.example.org", b"10.0.0.1", b"10.0.0.1:22", b"", b" ", b"x y", b"H\xc3\xb6st"]
 
 
-def gen(rng, budget, tier):
+def _gen_c18(rng, budget, tier):
     for i in range(budget):
         r = rng.random()
         n = rng.choice([0, 1, 2, 3, 5, 10, 50]) if r < 0.95 else rng.choice([500, 5000])
@@ -63,3 +67,10 @@ def gen(rng, budget, tier):
             nl = rng.choice([b"\n", b"\n", b"\r\n"])
             c = nl.join(items) + (nl if items and rng.random() < 0.7 else b"")
             yield "c18.file " + hexs(c)
+
+
+def gen(rng, budget, tier):
+    # what the client contacts over time: servers in host:port form, dropped connections, re-connects (about 5 s each)
+    yield "c18.reconnect 1"
+    yield "c18.reconnect 3"
+    yield from _gen_c18(rng, budget, tier)
